@@ -29,7 +29,7 @@ func execAttr(w []string) string {
 		fmt.Sscan(x, &l)
 		lens = append(lens, l)
 	}
-	ns, ok := gocql.VerifFlushAttribution(lens, limit)
+	ns, ok := gocql.VerifCoalescerAttribution(lens, limit)
 	parts := make([]string, len(ns))
 	for i := range ns {
 		b := "0"
@@ -422,6 +422,41 @@ func main() {
 					}
 					for _, ek := range kinds {
 						wcaseOut(wTemplate(conf, kind, cut, mid, ek))
+					}
+				}
+			}
+		}
+	}
+	// size mixes across batching thresholds x a cut at a byte offset of the request stream (wSizeMix)
+	for ci := 0; ci < 4; ci++ {
+		for bi, big := range []int{16<<10 + 1, 64<<10 + 1, 1<<20 + 1} {
+			for pos := 0; pos < 3; pos++ {
+				lens := []int{40, 25}
+				lens = append(lens[:pos:pos], append([]int{big}, lens[pos:]...)...)
+				pre := 0 // bytes of the stream before the large frame
+				for _, l := range lens[:pos] {
+					pre += l
+				}
+				cuts := []int{0, 1, 39, 40, 41, 64, 65, 66, pre + 9, pre + 4096, pre + big - 1, pre + big, 65 + big - 1}
+				if tier == "thorough" {
+					cuts = nil
+					for c := 0; c <= 70; c++ {
+						cuts = append(cuts, c)
+					}
+					for _, c := range []int{4095, 4096, 4097, 16383, 16384, 16385, big - 1, big, big + 1, big + 24, big + 25, big + 26, big + 64} {
+						cuts = append(cuts, c, pre+c)
+					}
+				}
+				for cx, cut := range cuts {
+					if cut >= 65+big {
+						continue
+					}
+					kinds := []string{errKinds[(ci+bi+pos+cx)%len(errKinds)]}
+					if tier == "thorough" {
+						kinds = errKinds
+					}
+					for _, ek := range kinds {
+						wcaseOut(wSizeMix(wconf{coal: ci%2 == 1, wt: ci/2 == 1, lens: lens}, cut, ek))
 					}
 				}
 			}
